@@ -4,9 +4,11 @@ set -u
 N=$1; ID=${N%%-*}; TAG=${N#*-}; D=/tmp/mw/$N/BENIGN
 [ -f $D/patch.diff ] || { echo "no patch for $N"; exit 2; }
 export GOFLAGS=-mod=mod GOPROXY=off
+# link stand-in for the Rust erasure-coding library (tests of internal/work_package)
+RS=$(mktemp -d /tmp/jv-rs.XXXXXX); gcc -O2 -x c -c /verif/stubs/rs_stub.c.txt -o $RS/rs_stub.o && ar rcs $RS/libreed_solomon_ffi.a $RS/rs_stub.o; export CGO_LDFLAGS=-L$RS
 WT=$(mktemp -d /tmp/jv-ben.XXXXXX)
 git -C /repo worktree add --detach "$WT" HEAD >/dev/null 2>&1 || exit 2
-cleanup() { cd /; git -C /repo worktree remove --force "$WT" >/dev/null 2>&1; rm -rf "$WT"; }
+cleanup() { cd /; git -C /repo worktree remove --force "$WT" >/dev/null 2>&1; rm -rf "$WT" "$RS"; }
 cd "$WT"; mkdir -p pkg/Rust-VRF/vrf-func-ffi/src; cp /verif/stubs/vrf.go pkg/Rust-VRF/vrf-func-ffi/src/vrf.go
 git apply "$D/patch.diff" || { echo "FAIL: patch does not apply"; cleanup; exit 1; }
 go build ./... >/tmp/jv-ben-build.log 2>&1 || { echo "FAIL: build"; tail -3 /tmp/jv-ben-build.log; cleanup; exit 1; }
@@ -25,7 +27,12 @@ print('DEMO=%s; DEST=%s; ARGS=(%s)' % (shlex.quote(demo), shlex.quote(dest), ' '
 PY
 )"
   mkdir -p "$(dirname "$DEST")"; cp "$sd/$DEMO" "$DEST" 2>/dev/null || continue
-  if go test -vet=off -count=1 "${ARGS[@]}" >/tmp/jv-ben-demo.log 2>&1; then echo "  demo $(basename $sd): PASS"; else echo "  demo $(basename $sd): FAIL with the refactor"; ok=0; fi
+  if go test -vet=off -count=1 "${ARGS[@]}" >/tmp/jv-ben-demo.log 2>&1; then echo "  demo $(basename $sd): PASS"; else
+    # does it pass on the unchanged tree at all? (a demonstration can go stale after a later fix: commit)
+    git apply -R "$D/patch.diff"
+    if go test -vet=off -count=1 "${ARGS[@]}" >/tmp/jv-ben-demo0.log 2>&1; then echo "  demo $(basename $sd): FAIL with the refactor"; ok=0; else echo "  demo $(basename $sd): STALE (fails on the unchanged tree too) — ignored, refresh it"; fi
+    git apply "$D/patch.diff"
+  fi
   rm -f "$DEST"
 done
 TF=$(python3 -c "import json,os;m=json.load(open('$D/meta.json'));print(os.path.basename(m['test_file']))")
